@@ -303,7 +303,7 @@ fn wrong_literal(p: &mut Prng, ty: &Ty) -> Expr {
     }
 }
 
-pub const KINDS: [&str; 25] = [
+pub const KINDS: [&str; 26] = [
     "type",               // operand/argument/field/condition/element/return/assigned value of another type
     "arity",              // wrong number of arguments / pattern binders
     "unknown-name",       // a variable / function / type / field / variant nobody declared
@@ -329,6 +329,7 @@ pub const KINDS: [&str; 25] = [
     "recursive-const",
     "drop-value",         // the value of a non-unit block is dropped (`e` → `e;`), else-less `if` used as a value
     "drop-value-after-loop", // the function's value is only returned from inside a loop that may not run
+    "drop-value-short-circuit", // … or only from the right operand of `&&` / `||`, which may not be evaluated
 ];
 
 pub struct Mutant {
@@ -919,6 +920,32 @@ pub fn mutate(prng: &mut Prng, prog: &Prog, kind: &'static str) -> Option<Mutant
                 },
             )
         }
+        "drop-value-short-circuit" => {
+            let mut seed = prng.clone();
+            prng.next();
+            pick_block(
+                prng,
+                prog,
+                &|b, k, it| {
+                    matches!(k, BlockKind::FnBody(_))
+                        && b.last.is_some()
+                        && !matches!(it.ret, Some(Ty::Unit) | Some(Ty::Verdict(..)))
+                        && !matches!(b.last.as_deref().map(|e| e.strip()), Some(Expr::Ret(..)))
+                },
+                &mut |b, _, _| {
+                    let e = b.last.take().unwrap();
+                    let op = if seed.chance(1, 2) { Op::And } else { Op::Or };
+                    let lhs = Expr::BoolLit(seed.chance(1, 2));
+                    let st = Expr::Bin(op, Box::new(lhs), Box::new(Expr::Ret(RetKind::Return, Some(e))));
+                    if seed.chance(1, 2) {
+                        b.stmts.push(Stmt::Do(st));
+                    } else {
+                        b.stmts.push(Stmt::Let(96_000, None, st));
+                    }
+                    detail = format!("value only returned from the right operand of `{}`", op.roto());
+                },
+            )
+        }
         "drop-value" => {
             if prng.chance(2, 3) {
                 pick_block(
@@ -957,12 +984,22 @@ pub fn mutate(prng: &mut Prng, prog: &Prog, kind: &'static str) -> Option<Mutant
     out.filter(|p| p != prog).map(|prog| Mutant { prog, kind, detail })
 }
 
-/// a variable declared by a `let` inside a block nested in this statement
+/// a variable whose scope is nested in this statement: a `let` inside one of
+/// its blocks, a `for` variable, a match binder
 fn inner_let(s: &Stmt) -> Option<usize> {
-    let Stmt::Do(e) = s else { return None };
+    let e = match s {
+        Stmt::Do(e) => e,
+        Stmt::Let(_, _, e) => e,
+    };
     match e.strip() {
         Expr::If(_, t, e2) => lets_of(t).first().cloned().or_else(|| e2.as_ref().and_then(|b| lets_of(b).first().cloned())),
-        Expr::While(_, b) | Expr::For(_, _, b) => lets_of(b).first().cloned(),
+        Expr::While(_, b) => lets_of(b).first().cloned(),
+        Expr::For(x, _, _) => Some(*x),
+        Expr::Match(_, arms) => arms.iter().find_map(|a| match &a.pat {
+            Pat::Variant { binders: Some(bs), .. } => bs.first().cloned(),
+            _ => lets_of(&a.body).first().cloned(),
+        }),
+        Expr::BlockE(b) => lets_of(b).first().cloned(),
         _ => None,
     }
 }
